@@ -5,8 +5,8 @@ Templates are transcribed from RFC 4880 5.2.4 (+ rfc4880bis for 0x16 and 0x28) a
 """
 import re
 
-from .interp import Interp, Scenario, Sym, Const, Enum, Bytes, render, render_items, merge_consts, render_item
-from .templates import C, LEN, BYTE, SYM, Pred, match_any, render_template
+from .interp import Interp, Scenario, Sym, Const, Enum, Bytes, render, render_items, merge_consts, render_item, lin_norm, sl
+from .templates import C, LEN, BYTE, SYM, Pred, match_any, render_template, split_top
 from .loader import AnalysisError
 from . import regexast
 
@@ -51,10 +51,24 @@ def trailer(VERSION, SIGTYPE, PKALG, HALG, HASHED):
         if item[0] != 'INT' or item[1] != '4':
             return False
         t = item[2].replace(' ', '')
-        ok = {('len(%s)' % five_text).replace(' ', ''),
-              ('(4+len(%s))' % HASHED).replace(' ', ''), ('(len(%s)+4)' % HASHED).replace(' ', '')}
-        return t in ok
+        if t == ('len(%s)' % five_text).replace(' ', ''):
+            return True
+        # four header octets plus the hashed area, in any integer-linear spelling (4 + len(h), len(h) + 2 + 2, ...)
+        try:
+            return lin_norm(item[2]) == lin_norm('4 + len(%s)' % HASHED)
+        except Exception:
+            return False
     return five + [C('04ff'), Pred('LEN(4; version..hashed-area)', lenpred)]
+
+
+def _balanced(t):
+    d = 0
+    for ch in t:
+        d += ch in '([{'
+        d -= ch in ')]}'
+        if d < 0:
+            return False
+    return d == 0
 
 
 def canon_pred(doc_aliases):
@@ -62,11 +76,30 @@ def canon_pred(doc_aliases):
     def p(item):
         if item[0] != 'SYM':
             return False
-        m = re.match(r"^re\.subn?\((.*), C\(0d0a\), (.*?)\)(\[0\])?$", item[1])
-        if not m:
+        # value text of the term: re.sub(P, R, DOC[, 0][, flags=0]) or re.subn(...)[0]; a compiled pattern is spelled back to this
+        # form by the canonicaliser, locals are resolved by the interpreter
+        m = re.match(r"^re\.(subn?)\((.*)\)(\[0\])?$", item[1])
+        mc = re.match(r"^re\.compile\((.*?)\)\.(subn?)\((.*)\)(\[0\])?$", item[1])
+        if mc and _balanced(mc.group(1)) and _balanced(mc.group(3)):
+            # a pattern object held in a local: re.compile(P[, flags]).sub(R, DOC) is re.sub(P, R, DOC[, flags=...])
+            fn, idx = mc.group(2), mc.group(4)
+            ca = split_top(mc.group(1))
+            a = [ca[0]] + split_top(mc.group(3)) + ['flags=%s' % x.split('=')[-1] for x in ca[1:]]
+        elif m:
+            fn, idx = m.group(1), m.group(3)
+            a = split_top(m.group(2))
+        else:
             return False
-        pat, doc = m.group(1), m.group(2)
-        if doc not in doc_aliases:
+        if (fn == 'subn') != bool(idx):
+            return False
+        kw = dict(x.split('=', 1) for x in a if re.match(r'^[a-z]+=', x))
+        a = [x for x in a if not re.match(r'^[a-z]+=', x)]
+        if len(a) == 4 and a[3] == '0':
+            a = a[:3]
+        if len(a) != 3 or any(k not in ('count', 'flags') or v != '0' for k, v in kw.items()):
+            return False
+        pat, repl, doc = a
+        if repl != 'C(0d0a)' or doc not in doc_aliases:
             return False
         pm = re.match(r'^C\(([0-9a-f]*)\)$', pat)
         if not pm:
@@ -77,7 +110,8 @@ def canon_pred(doc_aliases):
 
 
 # ---------------------------------------------------------------------------------------------- scenarios
-DOC_ALIASES = ['subject', "subject.encode('utf-8')", "subject.encode('charmap')"]
+DOC_ALIASES = ['subject', "subject.encode('utf-8')", "subject.encode('charmap')", 'subject.encode()', "subject.encode('utf8')",
+               "subject.encode('UTF-8')", "bytes(subject, 'utf-8')"]
 
 CERT_TYPES = ['Generic_Cert', 'Persona_Cert', 'Casual_Cert', 'Positive_Cert', 'CertRevocation', 'Attestation']
 
@@ -160,7 +194,9 @@ def check_hashdata(rep, prog, rid, only_types=None):
         ec = Const(Enum('SignatureType', member, members[member]))
         bind = {'self.type': ec, 'self._signature.sigtype': ec, 'self.embedded': Const(False)}
         bind.update(binds)
-        sc = Scenario(name=name, bind=bind, args={'subject': subj}, inline=inline, max_depth=3,
+        if len(fi.params) < 2:
+            raise AnalysisError('PGPSignature.hashdata: subject parameter vanished')
+        sc = Scenario(name=name, bind=bind, args={fi.params[1]: subj}, inline=inline, max_depth=3,
                       axioms={'subject._parent.hashdata': True, 'subject.hashdata': True,   # a key's hashed octets are never empty
                               '(len(subject._parent.hashdata) > 0)': True, '(len(subject.hashdata) > 0)': True,
                               '(0 in list(self._signature.signature))': False})
@@ -212,7 +248,7 @@ def check_subject_hashdata(rep, prog, rid):
         sc = Scenario(bind={'self.is_public': Const(public)})
         outs = Interp(prog, sc).run(fk)
         for s in outs:
-            exp = 'SLICE(%s.__bytearray__();len(%s.header);)' % (X, X)
+            exp = sl('%s.__bytearray__()' % X, ('len(%s.header)' % X, ''))
             found = render(s.ret) if s.ret is not None else '<no return>'
             rep.check(found == exp, rid, 'PGPKey.hashdata', 'is_public=%s: return %s' % (public, found),
                       'key hashdata must be the body of the PUBLIC key packet (packet minus header)',
@@ -222,7 +258,7 @@ def check_subject_hashdata(rep, prog, rid):
     for uid in (True, False):
         sc = Scenario(bind={'self.is_uid': Const(uid), 'self.is_ua': Const(not uid)})
         outs = Interp(prog, sc).run(fu)
-        exp = 'SLICE(self._uid.__bytearray__();len(self._uid.header);)' if uid else 'self._uid.subpackets.__bytearray__()'
+        exp = sl('self._uid.__bytearray__()', ('len(self._uid.header)', '')) if uid else 'self._uid.subpackets.__bytearray__()'
         for s in outs:
             found = render(s.ret) if s.ret is not None else '<no return>'
             rep.check(found == exp, rid, 'PGPUID.hashdata', 'is_uid=%s: return %s' % (uid, found),
